@@ -293,7 +293,7 @@ class Agent:
     def c_handles(self):
         return sorted(self.h)
 
-    def c_spawn(self, child, handles, addr, proc_cls, hold=False):
+    def c_spawn(self, child, handles, addr, proc_cls, hold=False, drop=()):
         """start a child client process with proxies as Process arguments (they are un-pickled
         while the spawned child bootstraps)"""
         if proc_cls == 'mpservice':
@@ -305,6 +305,11 @@ class Agent:
         p = Process(target=client_main,
                     args=(child, addr, self.manager, [(hc, self.h[hp]) for hp, hc in handles], hold, self.queue))
         p.start()
+        # `drop`: this client's own proxies (by name) that it deletes right after start(), i.e. while
+        # the pickled copies are still in transit to the bootstrapping child (start() has already
+        # released the Process object's reference to its args)
+        for hp in drop:
+            del self.h[hp]
         self.children[child] = p
         return None
 
@@ -422,7 +427,8 @@ class Director:
             return [out[k] for k in range(len(cmd[1]))]
         if cmd[0] == 'spawn':
             # ['spawn', child, handles, proc_cls]
-            who_agent_cmd = ['spawn', cmd[1], cmd[2], self.addr, cmd[3], bool(cmd[4]) if len(cmd) > 4 else False]
+            who_agent_cmd = ['spawn', cmd[1], cmd[2], self.addr, cmd[3], bool(cmd[4]) if len(cmd) > 4 else False,
+                             list(cmd[5]) if len(cmd) > 5 else []]
             r = self._do(who, who_agent_cmd)
             if isinstance(r, dict) and ('$raised' in r or '$hang' in r):
                 return r
